@@ -27,7 +27,7 @@ CLAIMED_IN_CONTAINERS = {
 TYPE_UNIVERSE = {
     "torch.Tensor", "torch.optim.Optimizer", "torch.nn.Module", "np.ndarray", "int", "float",
     "str", "bool", "NoneType", "list", "tuple", "dict", "set", "AutoSerialize", "np.generic",
-    "np.integer", "np.floating", "np.bool_", "Path", "complex", "bytes",
+    "np.integer", "np.floating", "np.bool_", "np.complexfloating", "Path", "complex", "bytes",
     "torch.nn.ModuleList", "torch.nn.Sequential", "torch.nn.ParameterList",
 }
 ATTR_UNIVERSE = {
@@ -36,8 +36,8 @@ ATTR_UNIVERSE = {
 }
 
 
-def K(types=(), attrs=(), module=None, autoser=False, typestr="", expect=(), in_containers=True):
-    return {"in_containers": in_containers, "types": set(types), "attrs": set(attrs) | ({"__module__"} if module else set()),
+def K(types=(), attrs=(), module=None, autoser=False, typestr="", expect=(), in_containers=True, nonjson_item=False):
+    return {"in_containers": in_containers, "nonjson_item": nonjson_item, "types": set(types), "attrs": set(attrs) | ({"__module__"} if module else set()),
             "module": module, "autoserialize": autoser, "typestr": typestr,
             "expect": set(expect) if not isinstance(expect, str) else {expect}}
 
@@ -66,6 +66,10 @@ KINDS = {
     "np.float32": K(["np.generic", "np.floating"], ["dtype", "item", "tolist"], None, expect="npscalar-attr"),
     "np.int64": K(["np.generic", "np.integer"], ["dtype", "item", "tolist"], None, expect="npscalar-attr"),
     "np.bool_": K(["np.generic", "np.bool_"], ["dtype", "item", "tolist"], None, expect="npscalar-attr"),
+    # complex NumPy scalars: `.item()` is a Python complex, which the JSON attribute store cannot hold — they must reach the dill fallback like `complex`
+    "np.complex64": K(["np.generic", "np.complexfloating"], ["dtype", "item", "tolist"], None, expect="dill", nonjson_item=True),
+    "np.complex128": K(["complex", "np.generic", "np.complexfloating"], ["dtype", "item", "tolist"], None, expect="dill", nonjson_item=True),
+    "complex": K(["complex"], [], None, expect="dill"),
     "pathlib.Path": K(["Path"], ["__fspath__"], "pathlib", typestr="<class 'pathlib.PosixPath'>", expect="path"),
     "AutoSerialize (plain)": K(["AutoSerialize"], [], "quantem.core.datastructures.dataset", autoser=True, expect="object"),
     "list": K(["list"], [], None, expect="container"),
@@ -1022,6 +1026,27 @@ def _rule_probe_handlers(check, repo: Repo) -> None:
                          fail_detail=f"handlers catch only {caught}: bytes of a plain array can raise other classes (e.g. EOFError for an empty array → "
                                      f"gzip.decompress(b'') == b'' → dill.loads(b'')), and load() aborts instead of returning the array")
     check.floor("raw-array probes", n_sites, 1)
+    # sibling agreement: the writer's fallback arm (dill + gzip → byte array) is taken for the same value kinds inside containers as at object level,
+    # so EVERY reader of plain array keys must apply the same probe; a container reader that returns the raw array hands back the gzip bytes
+    # (e.g. {"k": 1j} or [np.complex64(2j)] come back as uint8 arrays)
+    mod, dc = repo.func(f"{SER}:AutoSerialize._deserialize_container")
+    readers = [c for c in ast.walk(dc) if isinstance(c, ast.Call) and (call_name(c) or "").endswith("_read_array_np")]
+    n_r = 0
+    for c in readers:
+        # the enclosing function (the container reader itself or a nested helper such as maybe_tensor)
+        encl = dc
+        for f in ast.walk(dc):
+            if isinstance(f, ast.FunctionDef) and f is not dc and f.lineno <= c.lineno <= (f.end_lineno or f.lineno):
+                encl = f
+        # element reads only: the ndarray fast path ("values") and tensor payloads are typed by their markers
+        if c.args and len(c.args) > 1 and isinstance(c.args[1], ast.Constant):
+            continue
+        n_r += 1
+        probed = any(isinstance(x, ast.Call) and (call_name(x) or "") in ("dill.loads", "pickle.loads") for x in ast.walk(encl))
+        check.decide(probed, "C01-R11", f"_deserialize_container.{encl.name if encl is not dc else '<body>'}: plain array elements pass the same gzip+dill probe as object-level arrays", "",
+                     mod.line(c), fail_detail="array elements of containers are returned without the probe: a value the writer sent through the dill fallback (Python/NumPy complex scalars, "
+                                              "bytes, any unsupported kind) comes back as the raw gzip byte array when it sits inside a list, tuple, set or dict")
+    check.floor("container array-element readers", n_r, 1)
 
 
 def _rule_config(check, repo: Repo) -> None:
